@@ -8,11 +8,11 @@
    through the validity of the CONCATENATION of its slices or fragments; binary is never checked; checking
    off never rejects; (3) the pre-fix per-slice rule differs (defect D6, repaired by ad94fcf).
 
-   What is NOT proved here (C16_read_side_partial): that reader.go hands emitMessage the concatenation of the
-   fragments' (inflated) payloads.  That is the reassembly theorem of the reader model (Model/Reader.v, built
-   separately for C03/C13); C16_fragmentation_independent below is the part that belongs to C16: once the
-   reader passes `concat frags`, the verdict cannot depend on where the fragment boundaries fall.  The
-   harness (harness/c16.go part c) ties the composition to the implementation on real connections. *)
+   (4) the read side as a whole (C16_read_side, at the end of the file): the reader model, fed the bytes of a text
+   message cut into any fragments with any ping/pong frames in between, delivers it iff the CONCATENATION of the
+   fragments is valid (or checking is off) and otherwise fails the connection with 1007 having delivered nothing but the
+   control callbacks.  The harness (harness/c16.go part c) ties the composition to the implementation on real
+   connections. *)
 From Gws Require Import Lib.Base Model.Utf8 Spec.Rfc3629 Proofs.Utf8Loop Proofs.Utf8Proofs.
 Local Open Scope N_scope.
 
@@ -74,7 +74,7 @@ Theorem C16_read_gate : forall enabled op p,
 Proof. exact read_gate_iff. Qed.
 
 (* fragment boundaries are irrelevant: any two fragmentations of the same payload get the same verdict
-   (and the same as the unfragmented message).  Full read-side statement: see C16_read_side_partial above. *)
+   (and the same as the unfragmented message).  Full read-side statement: C16_read_side at the end of the file. *)
 Theorem C16_fragmentation_independent : forall enabled op frags frags' p,
   concat frags = p -> concat frags' = p ->
   read_gate enabled op (concat frags) = read_gate enabled op (concat frags')
@@ -119,7 +119,7 @@ Print Assumptions C16_close_reason.
    state) is delivered unchanged iff checking is off or its payload is well-formed UTF-8 (RFC 3629); otherwise nothing
    is delivered and the connection is failed with status 1007.  Fragmented and compressed messages reach the same check
    with the reassembled / inflated payload (C03_frame_refines: `complete`). *)
-From Gws Require Import Spec.Rfc6455 Spec.Rfc6455Recv Model.Header Model.CloseCode Model.Reader Proofs.FrameProofs Proofs.ReaderProofs Proofs.ReaderRefine.
+From Gws Require Import Spec.Rfc6455 Spec.Rfc6455Recv Model.Header Model.CloseCode Model.Reader Proofs.FrameProofs Proofs.ReaderProofs Proofs.ReaderRefine Proofs.FragmentProofs.
 
 Theorem C16_reader_text_gate :
   forall (inflate : list N -> list N -> Z -> option (list N)) (W : Type) (wdict : W -> list N) (wwrite : W -> list N -> W)
@@ -151,3 +151,35 @@ Proof.
 Qed.
 
 Print Assumptions C16_reader_text_gate.
+
+(* the read side as a whole: a text message in any number of fragments (any boundaries - inside a code point too -, length
+   forms, masking keys), with any ping/pong frames in between, read by an idle reader of either role: the control
+   callbacks come first in wire order; then the message is delivered iff the concatenation of its fragments is valid
+   UTF-8 or checking is off; otherwise nothing more is delivered and the connection is failed with status 1007 *)
+Theorem C16_read_side :
+  forall (inflate : list N -> list N -> Z -> option (list N)) (W : Type) (wdict : W -> list N) (wwrite : W -> list N -> W)
+         c st fuel lf0 k0 p0 cs0 mids lfl kl pl,
+  limit_ok c -> cf_init W st = false ->
+  Forall (ctl_ok (scfg_of c)) cs0 -> Forall (fun m => Forall (ctl_ok (scfg_of c)) (midw_ctls m)) mids ->
+  let wire := message_wire (r_server c) false 1 lf0 k0 p0 cs0 mids lfl kl pl in
+  let payload := p0 ++ concat (map midw_payload mids) ++ pl in
+  let ctls := map (ev_map) (map ctl_event (cs0 ++ flat_map midw_ctls mids)) in
+  Forall sendable wire -> (Z.of_nat (length payload) <= r_limit c)%Z -> (length (enc_stream wire) < fuel)%nat ->
+  let r := read_stream utf8_valid inflate W wdict wwrite fuel c st (enc_stream wire) in
+  if r_utf8 c && negb (utf8_valid payload)
+  then fst r = ctls /\ snd r = OFail W 1007%N
+  else fst r = ctls ++ [EvMsg 1%N payload] /\ exists st', snd r = OMore W st' false.
+Proof. exact (reader_fragmented_text utf8_valid). Qed.
+
+(* non-vacuity: U+4E2D (e4 b8 ad) split after its first byte, a ping in between, server role, checking on: delivered;
+   the same with the last byte replaced by 'A': 1007 after the ping *)
+Example C16_read_side_nonvacuous :
+  let c := {| r_server := true; r_pmd := false; r_limit := 100; r_utf8 := true |} in
+  let wire last := message_wire true false 1 LShortest [1; 2; 3; 4] [0xE4] [(9, [5; 6; 7; 8], [112])] [] L16 [9; 9; 9; 9] [0xB8; last] in
+  read_stream utf8_valid (fun _ _ _ => None) unit (fun _ => []) (fun w _ => w) 100 c (r_init unit tt) (enc_stream (wire 0xAD))
+    = ([EvPing [112]; EvMsg 1 [0xE4; 0xB8; 0xAD]], OMore unit (r_init unit tt) false)
+  /\ read_stream utf8_valid (fun _ _ _ => None) unit (fun _ => []) (fun w _ => w) 100 c (r_init unit tt) (enc_stream (wire 0x41))
+    = ([EvPing [112]], OFail unit 1007).
+Proof. vm_compute. split; reflexivity. Qed.
+
+Print Assumptions C16_read_side.
